@@ -51,6 +51,21 @@ def main():
         rc0, o0, e0 = run(['/venv/bin/python', demo], cwd=d, env=env, timeout=600)
         meta['demo_exit_unmodified'] = rc0
         base = tests(tree)
+        old_meta_path = os.path.join(ROOT, 'seeded', name, 'meta.json')
+        written_for = json.load(open(old_meta_path)).get('written_for_commit') if os.path.exists(old_meta_path) else None
+        written_for = written_for or (json.load(open(old_meta_path)).get('evaluated_at_repo_commit') if os.path.exists(old_meta_path) else None) \
+            or meta['evaluated_at_repo_commit']
+        meta['written_for_commit'] = written_for
+        rc, o, e = run(['patch', '-p1', '-s', '--dry-run', '-d', tree, '-i', os.path.join(src, 'patch.diff')])
+        if rc != 0 and written_for != meta['evaluated_at_repo_commit']:
+            # the tree has moved on (fix: commits) and the patch no longer applies: evaluate it on the tree it was written for
+            shutil.rmtree(tree)
+            os.makedirs(tree)
+            ar = subprocess.run('git -C %s archive %s | tar -x -C %s' % (REPO, written_for, tree), shell=True)
+            meta['evaluated_on_tree'] = written_for
+            rc0, o0, e0 = run(['/venv/bin/python', demo], cwd=d, env=env, timeout=600)
+            meta['demo_exit_unmodified'] = rc0
+            base = tests(tree)
         rc, o, e = run(['patch', '-p1', '-s', '-d', tree, '-i', os.path.join(src, 'patch.diff')])
         meta['patch_applies'] = (rc == 0)
         if rc != 0:
